@@ -157,7 +157,11 @@ func Contains(a, b V) Tri {
 			_, ok := a.Get(b.S)
 			return tri(ok)
 		}
-		return Unspec
+		if b.K == gen.KArr || b.K == gen.KMap {
+			return Unspec
+		}
+		// the keys of a logical map are strings, and a value of one kind never equals a value of another
+		return False
 	}
 	return Unspec
 }
